@@ -2,8 +2,8 @@ SPECIFICATION Spec
 CONSTANTS
  Threads = {1,2,3,4}
  Main = 1
- MaxNodes = 3
- MaxOps = 2
+ MaxNodes = 4
+ MaxOps = 3
  FixUninit = TRUE
  FixDetector = TRUE
  FixNifty = TRUE
